@@ -1090,7 +1090,7 @@ def ia32_movbe_crc32(obj, s, Mod, RM, REG, data):
     op1, data = getModRM(obj, Mod, RM, data)
     if not op1._is_mem:
         raise InstructionError(obj)
-    op2 = env.getreg(REG, op1.size)
+    op2 = getregR(obj, REG, op1.size)
     obj.operands = [op1, op2] if s else [op2, op1]
     obj.type = type_data_processing
 
